@@ -7,8 +7,8 @@ Part 1 — strings, `posixpath.split/join/normpath`, `urllib.parse.urlsplit/urlu
           `cssutils.Replacer` (`__init__.py:271-295`).
 Part 2 — abstract sheets (rule tree whose declarations hold value components, some of which are URLs),
           `_style_declarations`, `_uri_values`, `getUrls`, `replaceUrls` (`__init__.py:183-268`).
-Part 3 — `CSSImportRule._setHref` (loading an import tree through a fetcher, `cssimportrule.py:273-346`),
-          `CSSStyleSheet.add` (`insertRule(..., inOrder=True)`, `cssstylesheet.py:552-884`),
+Part 3 — `CSSImportRule._loadHref` (loading an import tree through a fetcher, `cssimportrule.py:285-362`),
+          `CSSStyleSheet.add` (`insertRule(..., inOrder=True)`, `cssstylesheet.py:496-913`),
           `resolveImports`, `_resolve_import`, `_check_media_proxy`, `MediaCombineDisallowed` (`__init__.py:298-415`).
 
 Strings are lists of code points (`Nat`). Python exceptions are values of `Err`.
@@ -560,14 +560,14 @@ def loadWith (loadImp : Str → Str → Res Rule) : Sheet → Res Sheet
     | .ok q => ⟨.ok (r :: q), b.log⟩
 
 /-- an `@import` met while a sheet's text is parsed: `_setHref` runs when the rule is parsed (`attempt`) and, if
-the target was not found, once more when the rule is inserted (`cssstylesheet.py:880-882`) — the same call with the
+the target was not found, once more when the rule is inserted (`cssstylesheet.py:909-911`) — the same call with the
 same fetcher answers, so the same outcome; the fetcher is called again -/
 def twice (attempt : Res Rule) : Res Rule :=
   match attempt.val with
   | .ok (.imp _ _ false _ _) => ⟨attempt.val, attempt.log ++ attempt.log⟩
   | _ => attempt
 
-/-- `CSSImportRule._setHref` (`cssimportrule.py:273-346`) for a rule whose parent sheet has the hrefs `chain`
+/-- `CSSImportRule._setHref` / `_loadHref` (`cssimportrule.py:273-362`) for a rule whose parent sheet has the hrefs `chain`
 (own href first, then the sheets it is imported from) and the fetcher `who`.
 `fuel` bounds the import depth (`vfs.length + 2` is what the callers give). -/
 def setHref (fuel : Nat) (vfs : Vfs) (who : Who) (chain : List Str) (href media : Str) : Res Rule :=
@@ -577,19 +577,19 @@ def setHref (fuel : Nat) (vfs : Vfs) (who : Who) (chain : List Str) (href media 
     match chain with
     | [] => ⟨.error .unsupported, []⟩                       -- parent sheet without href: cwd, not modelled
     | parentHref :: _ =>
-      match urljoin parentHref href with                    -- :297, outside the try
+      match urljoin parentHref href with                    -- :311, outside the try
       | .error e => ⟨.error e, []⟩
       | .ok full =>
-        if full ∈ chain then ⟨.ok (notLoaded href media), []⟩          -- :303-309 recursive @import
+        if full ∈ chain then ⟨.ok (notLoaded href media), []⟩          -- :317-323 recursive @import
         else
-          match vfsLookup vfs full with                     -- :311 _resolveImport -> fetcher(url)
-          | none => ⟨.ok (notLoaded href media), [(who, full)]⟩        -- :315-317, :335
+          match vfsLookup vfs full with                     -- :325 _resolveImport -> fetcher(url)
+          | none => ⟨.ok (notLoaded href media), [(who, full)]⟩        -- :329-331, :349
           | some raw =>
-            -- :329-333 the text is parsed; its own @imports are loaded as it goes
+            -- :343-347 the text is parsed; its own @imports are loaded as it goes
             let r := loadWith (fun h m => twice (setHref fuel vfs who (full :: chain) h m)) raw
             match r.val with
             | .error _ => ⟨.error .unsupported, (who, full) :: r.log⟩
-            | .ok rules => ⟨.ok (.imp href media true full rules), (who, full) :: r.log⟩   -- :344
+            | .ok rules => ⟨.ok (.imp href media true full rules), (who, full) :: r.log⟩   -- :360
 
 /-- an `@import` of the sheet that is being parsed -/
 def parseImp (fuel : Nat) (vfs : Vfs) (who : Who) (chain : List Str) (href media : Str) : Res Rule :=
@@ -625,16 +625,16 @@ def afterLast (p : Rule → Bool) : Sheet → Option Nat
 
 def insertAt (l : List Rule) (i : Nat) (x : Rule) : List Rule := l.take i ++ x :: l.drop i
 
-/-- `target.add(rule)` = `CSSStyleSheet.insertRule(rule, inOrder=True)` (`cssstylesheet.py:552-884`) on a sheet
+/-- `target.add(rule)` = `CSSStyleSheet.insertRule(rule, inOrder=True)` (`cssstylesheet.py:558-913`) on a sheet
 made by `resolveImports` (`href = thref`, no fetcher of its own, no owner rule).
 `@variables` rules are not modelled. -/
 def addRule (vfs : Vfs) (thref : Str) (target : Sheet) (rule : Rule) : Res Sheet :=
   match rule with
-  | .charset enc =>                                             -- :649-656
+  | .charset enc =>                                             -- :669-676
     match target with
     | .charset _ :: rest => ⟨.ok (.charset enc :: rest), []⟩
     | _ => ⟨.ok (rule :: target), []⟩
-  | .imp href media found _ _ =>                                -- :685-702, :732
+  | .imp href media found _ _ =>                                -- :705-722, :752
     let index := match afterLast isImp target with
       | some i => i
       | none => match target with
@@ -643,26 +643,26 @@ def addRule (vfs : Vfs) (thref : Str) (target : Sheet) (rule : Rule) : Res Sheet
         | _ => 0
     if found then ⟨.ok (insertAt target index rule), []⟩
     else
-      -- :880-882 `rule.href = rule.href`: try again, now relative to this sheet and with ITS fetcher
+      -- :909-911 `rule._loadHref(rule.href)`: try again, now relative to this sheet and with ITS fetcher
       let a := setHref (vfs.length + 2) vfs .dflt [thref] href media
       match a.val with
       | .error e => ⟨.error e, a.log⟩
       | .ok r => ⟨.ok (insertAt target index r), a.log⟩
-  | .ns pfx uri =>                                              -- :736-800
+  | .ns pfx uri =>                                              -- :756-820
     if target.any (fun r => match r with
         | .ns p u => (p = pfx ∧ u ≠ uri) ∨ (p ≠ pfx ∧ u = uri)
         | _ => false) then ⟨.error .unsupported, []⟩           -- clash of prefixes / URIs: C15's kernel
     else if target.any (fun r => match r with
         | .ns p u => p = pfx ∧ u = uri
-        | _ => false) then ⟨.ok target, []⟩                   -- :789-800 "no doublettes"
+        | _ => false) then ⟨.ok target, []⟩                   -- :809-820 "no doublettes"
     else
       let index := match afterLast isNs target with
         | some i => i
-        | none => match afterLast (fun r => isCharset r || isImp r) target with   -- :746-761
+        | none => match afterLast (fun r => isCharset r || isImp r) target with   -- :766-781
           | some i => i
           | none => 0
       ⟨.ok (insertAt target index rule), []⟩
-  | _ => ⟨.ok (target ++ [rule]), []⟩                           -- :669 (not inOrder) falls through to :855-859
+  | _ => ⟨.ok (target ++ [rule]), []⟩                           -- :691 (not inOrder) falls through to :883-888
 
 /-- `for r in rules: target.add(r)` -/
 def addAll (vfs : Vfs) (thref : Str) (target : Sheet) : List Rule → Res Sheet
@@ -683,7 +683,7 @@ def combinable : Rule → Bool
   | _ => false
 
 /-- `for r in importedSheet: media_proxy.add(r)` for rules that passed `_combinable`
-(`CSSMediaRule.insertRule`, `cssmediarule.py:317-340`): an `@import` is refused with HierarchyRequestErr -/
+(`CSSMediaRule.insertRule`, `cssmediarule.py:319-342`): an `@import` is refused with HierarchyRequestErr -/
 def proxyAddAll (acc : List Rule) : List Rule → Except Err (List Rule)
   | [] => .ok acc
   | .imp .. :: _ => .error .hierarchyRequestErr
